@@ -707,3 +707,25 @@ func allCallSites(p *Program, f *ssa.Function) (calls []ssa.CallInstruction, ok 
 	}
 	return calls, true
 }
+
+// argOfParam: when v is a parameter of a function that has exactly one call site (and is
+// never used as a value), the argument passed there (followed through further parameters);
+// otherwise v itself.
+func argOfParam(p *Program, v ssa.Value, depth int) ssa.Value {
+	par, ok := v.(*ssa.Parameter)
+	if !ok || depth > 3 {
+		return v
+	}
+	fn := par.Parent()
+	idx := -1
+	for i, q := range fn.Params {
+		if q == par {
+			idx = i
+		}
+	}
+	calls, asValue := directCallSites(p, fn)
+	if idx < 0 || asValue || len(calls) != 1 || idx >= len(calls[0].Common().Args) {
+		return v
+	}
+	return argOfParam(p, calls[0].Common().Args[idx], depth+1)
+}
